@@ -33,3 +33,48 @@ Proof.
     replace (Z.to_nat (zlen l)) with (length l) by (unfold zlen; lia). rewrite skipn_app_exact, firstn_app_exact.
     rewrite (IH rest f eq_refl) by lia. reflexivity.
 Qed.
+
+(* ECDSA keys (RFC 6605): what the specification encodes decodes to the same point, and the key has exactly 2 x 32 or
+   2 x 48 octets; EdDSA keys (RFC 8080) are 32 or 57 octets taken verbatim *)
+From CP Require Import Lemmas.UnitLemmas.
+
+Lemma dec_enc_ecdsa_key alg x y k : enc_ecdsa_key alg x y = Some k ->
+  dec_ecdsa_key alg k = Some (x, y) /\ (alg = 13 /\ zlen k = 64 \/ alg = 14 /\ zlen k = 96).
+Proof.
+  unfold enc_ecdsa_key, dec_ecdsa_key. destruct (ecdsa_size alg) as [n|] eqn:En; cbn [obind]; [|discriminate].
+  destruct (Z.leb_spec 0 x) as [Hx0|]; cbn [andb]; [|discriminate].
+  destruct (Z.ltb_spec x (256 ^ Z.of_nat n)) as [Hx1|]; cbn [andb]; [|discriminate].
+  destruct (Z.leb_spec 0 y) as [Hy0|]; cbn [andb]; [|discriminate].
+  destruct (Z.ltb_spec y (256 ^ Z.of_nat n)) as [Hy1|]; [|discriminate].
+  intros H. injection H as <-.
+  assert (L : zlen (be_enc n x ++ be_enc n y) = 2 * Z.of_nat n).
+  { rewrite zlen_app. unfold zlen. rewrite !be_enc_length. lia. }
+  rewrite L, Z.eqb_refl. split.
+  - assert (E1 : firstn n (be_enc n x ++ be_enc n y) = be_enc n x).
+    { rewrite <- (be_enc_length n x) at 1. apply firstn_app_exact. }
+    assert (E2 : skipn n (be_enc n x ++ be_enc n y) = be_enc n y).
+    { rewrite <- (be_enc_length n x) at 1. apply skipn_app_exact. }
+    rewrite E1, E2, !be_val_be_enc by lia. reflexivity.
+  - unfold ecdsa_size in En. destruct (Z.eqb_spec alg 13) as [->|_].
+    + injection En as En'. subst n. left. split; [reflexivity|exact L].
+    + destruct (Z.eqb_spec alg 14) as [->|_]; [|discriminate]. injection En as En'. subst n. right. split; [reflexivity|exact L].
+Qed.
+
+Lemma enc_eddsa_key_verbatim alg k k' : enc_eddsa_key alg k = Some k' ->
+  k' = k /\ (alg = 15 /\ zlen k = 32 \/ alg = 16 /\ zlen k = 57).
+Proof.
+  unfold enc_eddsa_key, eddsa_size.
+  destruct (Z.eqb_spec alg 15) as [->|_]; cbn [obind].
+  - destruct (Z.eqb_spec (zlen k) 32) as [E|]; [|discriminate]. intros H. injection H as <-. split; [reflexivity|left; split; [reflexivity|exact E]].
+  - destruct (Z.eqb_spec alg 16) as [->|_]; cbn [obind]; [|discriminate].
+    destruct (Z.eqb_spec (zlen k) 57) as [E|]; [|discriminate]. intros H. injection H as <-. split; [reflexivity|right; split; [reflexivity|exact E]].
+Qed.
+
+Lemma dec_enc_dnskey flags alg key : 0 <= flags < 65536 -> 0 <= alg < 256 ->
+  dec_dnskey (enc_dnskey flags alg key) = Some (flags, 3, alg, key).
+Proof.
+  intros H1 H2. unfold dec_dnskey, enc_dnskey.
+  rewrite dec_enc_uint by (change (256 ^ Z.of_nat 2) with 65536; lia). cbn [obind].
+  rewrite dec_enc_uint by (change (256 ^ Z.of_nat 1) with 256; lia). cbn [obind].
+  rewrite dec_enc_uint by (change (256 ^ Z.of_nat 1) with 256; lia). reflexivity.
+Qed.
